@@ -130,6 +130,14 @@ def correspond(ctx, scale):
                     fail('vq:learnable-codebook-gradient', f'VectorQuantize({kw}): codebook gradient of the commitment loss differs from 2 w (q - x)/N on the selected rows', dict(kw=kw))
                 cases.append(f'commit_q_check {qlit(TOL)} {qlit(Fraction(w))} true false {qvec(xf)} {qvec(qf)} {qvec([float(w * 2.0 / N * (a - c)) for a, c in zip(qf, xf)])}')
                 meta.append(dict(kind='commit-grad-codes', kw=kw))
+                # a learnable codebook that is FROZEN for this call must not receive gradient either
+                vq.zero_grad()
+                xg3 = x.clone().requires_grad_(True)
+                o3, _, l3 = vq(xg3, freeze_codebook=True)
+                gf = torch.autograd.grad(o3.sum() + l3.sum(), emb, allow_unused=True)[0]
+                dist['codebook_grads'] += 1
+                if gf is not None and float(gf.abs().max()) != 0.0:
+                    fail('vq:frozen-learnable-codebook-receives-gradient', f'VectorQuantize({kw}): with freeze_codebook=True the learnable codebook received a gradient (max {float(gf.abs().max()):.3g})', dict(kw=kw))
             else:
                 # EMA-maintained codebook: no gradient at all
                 (out.sum() + loss.sum()).backward()
